@@ -1214,6 +1214,16 @@ impl Core {
 			},
 		)?;
 
+		// The WAL writer was opened before replay; a repair during replay replaces the
+		// segment file under it, and the old writer would keep appending to the unlinked
+		// file. Reopen the writer on what is on disk now.
+		{
+			let mut wal_guard = inner.wal.write();
+			let new_wal =
+				Wal::open_with_min_log_number(&wal_path, min_wal_number, wal::Options::default())?;
+			*wal_guard = new_wal;
+		}
+
 		// Set recovered memtable as active (if any)
 		if let Some(memtable) = recovered_memtable {
 			let mut active_memtable = inner.active_memtable.write()?;
@@ -1604,6 +1614,18 @@ impl Tree {
 				Ok(())
 			},
 		)?;
+
+		// As in Core::new: a repair during replay replaces the segment file under the
+		// writer opened above; reopen the writer on what is on disk now.
+		{
+			let mut wal_guard = self.core.inner.wal.write();
+			let new_wal = Wal::open_with_min_log_number(
+				&wal_path,
+				manifest_log_number,
+				wal::Options::default(),
+			)?;
+			*wal_guard = new_wal;
+		}
 
 		// Set recovered memtable as active (if any)
 		if let Some(memtable) = recovered_memtable {
